@@ -234,6 +234,53 @@ pub fn run(args: &Args) {
         }
         out.ev(json!({"ev":"dac","amps":amps}));
     }
+    // both chip types: the settled amplitude at each of the 32 envelope levels of a slow attack ramp, and
+    // at each fixed volume ("amplitude grows strictly with the volume, or follows the envelope")
+    for name in ["AY", "YM"] {
+        let ch = (r.below(3)) as usize;
+        let mk = || {
+            let kind = if name == "YM" { SoundChip::YM } else { SoundChip::AY };
+            let mut ay = AymPrecise::new(kind, AyMode::Mono, CLK, 44100);
+            ay.verif_record_levels(true);
+            ay.write_register(7, 0x3F);
+            ay
+        };
+        let mut fixed = vec![];
+        for vol in 0..16u8 {
+            let mut ay = mk();
+            ay.write_register(8 + ch as u8, vol);
+            let mut last = 0.0;
+            for _ in 0..2000 {
+                last = ay.next_sample().left;
+            }
+            fixed.push((last * 1e6) as i64);
+        }
+        let mut ay = mk();
+        let ep: u16 = 1500 + r.below(1000) as u16;
+        ay.write_register(8 + ch as u8, 0x10 | (r.u8() & 0x0F));
+        ay.write_register(11, (ep & 0xFF) as u8);
+        ay.write_register(12, (ep >> 8) as u8);
+        ay.write_register(13, 13); // attack, then hold at the top
+        ay.verif_take_levels();
+        let mut amps = vec![-1i64; 32];
+        let (mut cur, mut held) = (255u8, 0usize);
+        for _ in 0..(32 * ep as usize / 4 + 4000) {
+            let v = ay.next_sample().left;
+            let lv = ay.verif_take_levels();
+            let Some(lvl) = lv.last().map(|x| x[ch]) else { continue };
+            let steady = lv.iter().all(|x| x[ch] == lvl);
+            if steady && lvl == cur {
+                held += 1;
+            } else {
+                cur = lvl;
+                held = 0;
+            }
+            if held >= 150 && (lvl as usize) < 32 {
+                amps[lvl as usize] = (v * 1e6) as i64;
+            }
+        }
+        out.ev(json!({"ev":"envdac","chip":name,"ch":ch,"ep":ep,"amps":amps,"fixed":fixed}));
+    }
     for m in 0..7u64 {
         for ch in 0..3usize {
             let mut ay = chip(mode_of(m), 44100);
